@@ -559,3 +559,45 @@ def temporal_trailing_text(sx, p):
     if out.accepted:
         return sx.matches(lexical, text)
     return is_client_validation_fault(out.fault)
+
+
+# ---------------------------------------------------------------- a wrapped array as a mandatory member
+def _arr_holder(mn):
+    class Holder(ComplexModel):
+        __namespace__ = 'tns'
+        __type_name__ = 'ArrHolder_%d' % mn
+        _type_info = [('arr', Array(Integer, min_occurs=mn)), ('y', Unicode)]
+    return Holder
+
+
+ARR_HOLDERS = {0: _arr_holder(0), 1: _arr_holder(1)}
+
+
+@harness('C05', params=[(mn, fam) for mn in (0, 1) for fam in ('xml', 'json')], label=lambda p: 'Array(min_occurs=%d) %s' % p,
+         functions=['spyne.protocol.dictdoc._base.DictDocument._check_freq_dict', 'spyne.protocol.xml.XmlDocument.complex_from_element'],
+         bounds={'document': 'the wrapped array member absent, present and empty, or present with 1..2 symbolic integers'})
+def wrapped_array_presence(sx, p):
+    """a wrapped array member declared with min_occurs=1 must be present (an empty array is present); with min_occurs=0 it may
+    be left out - the same in both protocol families"""
+    mn, fam = p
+    cls = ARR_HOLDERS[mn]
+    shape = sx.choose('shape', ['absent', 'empty', 'one', 'two'])
+    n = {'absent': 0, 'empty': 0, 'one': 1, 'two': 2}[shape]
+    vals = [sx.int('v%d' % i, -99, 99) for i in range(n)]
+    if fam == 'xml':
+        kids = [mk_element(sx, '{tns}y', text='s')]
+        if shape != 'absent':
+            kids.insert(0, mk_element(sx, '{tns}arr', children=[mk_element(sx, '{tns}integer', text=sx.render(v)) for v in vals]))
+        out = run_soft(lambda: XML.from_element(CTX, cls, mk_element(sx, '{tns}h', children=kids)))
+    else:
+        doc = {'y': 's'}
+        if shape != 'absent':
+            doc['arr'] = list(vals)
+        out = run_soft(lambda: JSON._doc_to_object(CTX, cls, doc, JSON.validator))
+    ok = shape != 'absent' or mn == 0
+    sx.observe('accepted', out.accepted)
+    if out.accepted:
+        got = out.value.arr
+        same = (got is None or got == []) if n == 0 else sx.And(len(got) == n, *[sx.eq(a, b) for a, b in zip(got, vals)])
+        return sx.And(ok, same)
+    return (not ok) and is_client_validation_fault(out.fault)
